@@ -29,6 +29,9 @@ pub enum Idx {
     AnnouncedAltered,
     /// an index that was not won is added inside the signature (invalid)
     InnerExtraUnwon,
+    /// the signature is made with the party's key as registered for the NEXT epoch (another
+    /// registration set, hence another aggregate key): not a signature of the current round
+    NextEpochRegistration,
 }
 
 #[derive(Clone, Copy, Debug, Serialize, Deserialize, PartialEq, Eq, Hash)]
@@ -54,21 +57,36 @@ pub enum Start {
     Open,
     /// READY, no open message yet: submissions are buffered and handed over when it is created
     NotYetOpen,
+    /// as `Open`, but only parties 0 and 1 registered for the next epoch: the current and the next
+    /// signer sets (and aggregate keys) differ
+    OpenNextSetDiffers,
+    /// as `NotYetOpen`, with differing current and next signer sets
+    NotYetOpenNextSetDiffers,
+}
+
+impl Start {
+    fn is_open(&self) -> bool {
+        matches!(self, Start::Open | Start::OpenNextSetDiffers)
+    }
 }
 
 fn prefix(s: Start) -> Vec<Ev> {
-    let mut p = vec![Ev::Tick, Ev::RegisterAll, Ev::Epoch(1), Ev::Tick, Ev::Tick];
-    if s == Start::Open {
+    let mut p = match s {
+        Start::Open | Start::NotYetOpen => vec![Ev::Tick, Ev::RegisterAll],
+        _ => vec![Ev::Tick, Ev::Register(0), Ev::Register(1)],
+    };
+    p.extend([Ev::Epoch(1), Ev::Tick, Ev::Tick]);
+    if s.is_open() {
         p.push(Ev::Tick);
     }
     p
 }
 
 fn build_signature(w: &World, epoch: u64, msg: &mithril_common::entities::ProtocolMessage, s: &Sub) -> Option<SingleSignature> {
-    let mut sig = w.sign(s.by, epoch, msg)?;
+    let mut sig = if s.idx == Idx::NextEpochRegistration { w.sign(s.by, epoch + 1, msg)? } else { w.sign(s.by, epoch, msg)? };
     let m = protocol_parameters().m;
     match s.idx {
-        Idx::AsSigned => {}
+        Idx::AsSigned | Idx::NextEpochRegistration => {}
         Idx::InnerSubset => {
             let keep: Vec<u64> = sig.won_indexes[..sig.won_indexes.len().div_ceil(2)].to_vec();
             let mut p = sig.to_protocol_signature();
@@ -227,14 +245,14 @@ pub fn replay(scratch: &std::path::Path, start: Start, subs: &[Sub]) -> RunResul
             let ctx = json!({"replay": replay_json, "step": n, "submission": s, "answer": answer});
             // a mismatching label must be answered with a rejection (HTTP; the queue path has no
             // answer channel: there the store is what counts)
-            if s.route == Route::Http && s.by != s.label && ok && start == Start::Open {
+            if s.route == Route::Http && s.by != s.label && ok && start.is_open() {
                 violations.push(Violation {
                     key: "C16/mismatching-label-accepted".into(),
                     what: format!("a signature made by party #{} submitted under the name of party #{} was answered {answer}", s.by, s.label),
                     replay: ctx.clone(),
                 });
             }
-            if ok && is_valid_own && start == Start::Open {
+            if ok && is_valid_own && start.is_open() {
                 honest_accepted.insert(s.by);
             }
             if ok {
@@ -275,7 +293,7 @@ pub fn replay(scratch: &std::path::Path, start: Start, subs: &[Sub]) -> RunResul
         let sealed = certs.iter().any(|c| !c.is_genesis() && c.signed_entity_type() == entity);
         // completeness: the three honest own-name signatures always reach the quorum
         let honest_all = (0..3).all(|i| subs.iter().any(|s| s.by == i && s.label == i && s.idx == Idx::AsSigned));
-        if honest_all && !sealed && start == Start::Open {
+        if honest_all && !sealed && start.is_open() {
             violations.push(Violation {
                 key: "C16/honest-quorum-not-certified".into(),
                 what: format!("all three parties submitted their own valid signature, yet no certificate was produced; answers {answers:?}"),
@@ -381,7 +399,34 @@ pub fn run(ctx: &Ctx) -> ! {
             }
         }
     }
+    // current and next signer sets differ: signatures made under the NEXT epoch's registration of a
+    // party (same key, other registration set) sent for the current round, under the party's own name
+    let mut alpha2: Vec<Sub> = (0..3).map(|i| Sub { by: i, label: i, idx: Idx::AsSigned, route: Route::Http }).collect();
+    for route in [Route::Http, Route::Queue] {
+        for by in 0..2 {
+            alpha2.push(Sub { by, label: by, idx: Idx::NextEpochRegistration, route });
+        }
+    }
+    alpha2.push(Sub { by: 0, label: 1, idx: Idx::NextEpochRegistration, route: Route::Http });
+    alpha2.push(Sub { by: 0, label: 1, idx: Idx::AsSigned, route: Route::Http });
+    for start in [Start::OpenNextSetDiffers, Start::NotYetOpenNextSetDiffers] {
+        for s in sequences(alpha2.len(), 2) {
+            if s.is_empty() {
+                continue;
+            }
+            jobs.push((start, s.iter().map(|i| alpha2[*i]).collect()));
+        }
+        let honest: Vec<Sub> = (0..3).map(|i| Sub { by: i, label: i, idx: Idx::AsSigned, route: Route::Http }).collect();
+        for a in alpha2.iter().filter(|a| a.idx == Idx::NextEpochRegistration) {
+            for pos in [0usize, 3] {
+                let mut s = honest.clone();
+                s.insert(pos, *a);
+                jobs.push((start, s));
+            }
+        }
+    }
     rep.extra("alphabet", json!(alpha.len()));
+    rep.extra("alphabet_when_next_signer_set_differs", json!(alpha2.len()));
     rep.extra("max_sequence_length", json!(len));
     rep.extra("histories", json!(jobs.len()));
     let results = par_map(&jobs, ctx.threads(), |_, (st, subs)| replay(&scratch, *st, subs));
